@@ -14,7 +14,7 @@ IMPORTS = "Base Json MD5 Canon FS Ws Cache Repair CorrC09"
 CASE_TYPE = "case_C09"
 MISMATCHES = "mismatches_C09"
 VIOLATIONS = "violations_C09"
-KNOWN = None
+KNOWN = "known_C09"
 SHARD = 60
 RULE = ("real projects of 1-4 jobs drawn from 13 state point shapes (nested, floats, unicode, null, empty containers, the "
         "EMPTY state point {} and other falsy-looking ones: {a:0}, {a:null}, {a:{}}, {a:[]}), "
@@ -23,7 +23,9 @@ RULE = ("real projects of 1-4 jobs drawn from 13 state point shapes (nested, flo
         "5th) x class {digit, letter, quote, brace, space, 0x00, 0x80}, deletion, replacement by other JSON (another "
         "job's file, 1, [], {}, null, ints as floats, reordered keys, leading space), also ACROSS jobs (one job receives "
         "the state point of another job that is itself deleted/truncated/replaced/renamed), renaming of the directory to "
-        "another id (random, id of an absent shape, md5('null')); with no / full / partial persistent cache "
+        "another id (random, id of an absent shape, md5('null'), the freed id of another renamed job: chains and cycles, the id "
+        "of a removed but still cached job); replacement also by non-mappings ([1, 2], 5, \"s\", true) and by texts nested 2000 "
+        "levels deep (RecursionError in json); with no / full / partial persistent cache "
         "(update_cache before the damage).  Observed: check() ids, open_job(id=i).statepoint() in fresh sessions, "
         "repair() outcome, byte snapshot of the whole workspace before/after, check() after, open by id through the "
         "repairing session.  non-trivial: at least one job is damaged (canonical hash of the decoded value differs "
@@ -61,7 +63,8 @@ CACHE = os.path.join(".signac", "statepoint_cache.json.gz")
 _HEX = re.compile(r"^[0-9a-f]{32}")
 NULL_ID = hashlib.md5(b"null").hexdigest()
 CLASSES = ["digit", "letter", "quote", "brace", "space", "nul", "hi"]
-REPLACEMENTS = ["other", "1", "[]", "{}", "null", "float", "reorder", "space"]
+REPLACEMENTS = ["other", "1", "[]", "{}", "null", "float", "reorder", "space", "[1, 2]", "5", "\"s\"", "true"]
+DEEP = {"deeplist": b"[" * 2000 + b"]" * 2000, "deepobj": b'{"a":' * 2000 + b"1" + b"}" * 2000}   # RecursionError in json
 RENAMES = ["rand", "shape", "null"]
 
 
@@ -83,6 +86,16 @@ def _single_sweep(stride_t, stride_s):
             dmg += [["rename", r, s] for r in RENAMES]
             for d in dmg:
                 out.append({"jobs": [s, other], "cache": cache, "damage": [[0] + d]})
+            # chained renames (known finding 1): job 1 is renamed away, job 0 takes its name — then job 1's true id is
+            # occupied by another misnamed directory; three different free names vary the listing order; and a cycle
+            for k in (s, s + 100, s + 200):
+                out.append({"jobs": [s, other], "cache": cache, "damage": [[1, "rename", "rand", k], [0, "rename", "job:1"]]})
+            out.append({"jobs": [s, other], "cache": cache,
+                        "damage": [[0, "rename", "rand", s + 300], [1, "rename", "job:0"], [0, "rename", "job:1"]]})
+            # a directory renamed to the id of a job that was removed but is still cached (known finding 2)
+            if cache == "full":
+                out.append({"jobs": [s, other], "cache": cache, "ghost": (s + 2) % len(SHAPES),
+                            "damage": [[0, "rename", "ghost", 0]]})
             # damage ACROSS jobs: job 1 gets job 0's state point while job 0's own file is deleted / truncated /
             # replaced / its directory renamed away (seeded C09-9: the rename target exists without a state point file)
             for first in (["delete"], ["trunc", 1], ["replace", "job:1"], ["replace", "[]"], ["rename", "rand", s]):
@@ -101,7 +114,7 @@ def _rand_damage(rng, shape):
         return ["delete"]
     if r < 0.8:
         return ["replace", rng.choice(REPLACEMENTS)]
-    return ["rename", rng.choice(RENAMES), rng.randrange(1000)]
+    return ["rename", rng.choice(RENAMES + ["job:%d" % rng.randrange(4)]), rng.randrange(1000)]
 
 
 def _rand_multi(rng):
@@ -116,10 +129,30 @@ def _rand_multi(rng):
         a, b = rng.sample(range(k), 2)
         damage.append([b, "replace", "job:%d" % a])
         damage = damage[-3:]
-    return {"jobs": jobs, "cache": cache, "damage": damage}
+    desc = {"jobs": jobs, "cache": cache, "damage": damage}
+    if cache == "full" and rng.random() < 0.15:
+        rest = [x for x in range(len(SHAPES)) if x not in jobs]
+        desc["ghost"] = rng.choice(rest)
+        desc["damage"] = damage[:2] + [[rng.randrange(k), "rename", "ghost", 0]]
+    return desc
 
 
 DIRECTED = [
+    # nested beyond the recursion limit: undecodable, reported, repaired from the cache (fix: 178057f)
+    {"jobs": [0, 1], "cache": "none", "damage": [[0, "replace", "deeplist"]]},
+    {"jobs": [0, 1], "cache": "full", "damage": [[0, "replace", "deeplist"]]},
+    {"jobs": [2, 8], "cache": "none", "damage": [[0, "replace", "deepobj"], [1, "rename", "rand", 21]]},
+    {"jobs": [2, 8], "cache": "full", "damage": [[1, "replace", "deepobj"]]},
+    {"jobs": [4, 5, 6], "cache": "partial:1", "damage": [[0, "replace", "deepobj"], [1, "replace", "deeplist"], [2, "rename", "rand", 22]]},
+    # valid JSON that is not a mapping: reported, the directory stays where it is (fix: 353a4b6)
+    {"jobs": [0, 1], "cache": "none", "damage": [[0, "replace", "[1, 2]"]]},
+    {"jobs": [0, 1], "cache": "none", "damage": [[0, "replace", "null"], [1, "replace", "5"]]},
+    {"jobs": [3, 4, 5], "cache": "partial:1", "damage": [[1, "replace", "\"s\""], [2, "replace", "true"], [0, "replace", "1"]]},
+    # the candidate defects (a) and (c) of round 3, now open known findings 1 and 2
+    {"jobs": [0, 1], "cache": "none", "damage": [[1, "rename", "rand", 1], [0, "rename", "job:1"]]},
+    {"jobs": [0, 1, 2], "cache": "none", "damage": [[2, "rename", "rand", 2], [1, "rename", "job:2"], [0, "rename", "job:1"]]},
+    {"jobs": [0, 1], "cache": "full", "ghost": 2, "damage": [[0, "rename", "ghost", 0]]},
+    {"jobs": [1, 3], "cache": "full", "ghost": 9, "damage": [[1, "rename", "ghost", 0], [0, "trunc", 4]]},
     # the cached EMPTY state point {} (falsy in Python) must be repaired from the cache like any other (seeded C09-5)
     {"jobs": [8, 0], "cache": "full", "damage": [[0, "delete"]]},
     {"jobs": [8, 0], "cache": "full", "damage": [[0, "trunc", 1]]},
@@ -198,7 +231,7 @@ def substitute(cls, pick, old):
     return bytes([b])
 
 
-def apply_damage(root, ids, jobs, dmg, dirs):
+def apply_damage(root, ids, jobs, dmg, dirs, ghost=None):
     """dirs: job index -> current directory name (renames update it)"""
     ws = os.path.join(root, "workspace")
     v = dmg[0]
@@ -241,6 +274,8 @@ def apply_damage(root, ids, jobs, dmg, dirs):
             new = json.dumps(dict(reversed(list(sp.items())))).encode()
         elif what == "space":
             new = b" " + json.dumps(sp).encode() + b"\n"
+        elif what in DEEP:
+            new = DEEP[what]
         else:
             new = what.encode()
         open(fn, "wb").write(new)
@@ -251,6 +286,10 @@ def apply_damage(root, ids, jobs, dmg, dirs):
         elif how == "shape":
             absent = [s for s in range(len(SHAPES)) if s not in jobs]
             t = hashlib.md5(json.dumps(SHAPES[absent[dmg[3] % len(absent)]], sort_keys=True).encode()).hexdigest()
+        elif how.startswith("job:"):
+            t = ids[int(how[4:]) % len(ids)]
+        elif how == "ghost":
+            t = ghost or NULL_ID
         else:
             t = NULL_ID
         src = os.path.join(ws, dirs[v])
@@ -265,12 +304,14 @@ def apply_damage(root, ids, jobs, dmg, dirs):
 def decode_both(b):
     try:
         s = ["val", json.loads(b.decode())]
-    except ValueError:
+    except (ValueError, RecursionError):      # undecodable: ValueError (JSON / unicode) or nested too deeply
         s = ["none"]
     try:
         v = ["val", json.loads(b)]
     except json.JSONDecodeError:
         v = ["jsonerr"]
+    except RecursionError:
+        v = ["recerr"]
     except Exception:  # noqa: BLE001 (UnicodeDecodeError)
         v = ["othererr"]
     return s, v
@@ -310,11 +351,19 @@ def run_project(root, desc):
             with open(j.fn(os.path.join("sub", "blob.bin")), "wb") as fh:
                 fh.write(bytes([0, 255, k, 10, 13]))
         ids.append(j.id)
+    ghost = None
+    if desc.get("ghost") is not None:
+        # a job that is cached and then removed: the cache stays a superset ("ghost" entry)
+        g = p.open_job(json.loads(json.dumps(SHAPES[desc["ghost"]])))
+        g.init()
+        ghost = g.id
     if cache == "full" or upto == len(jobs):
         signac.Project(root).update_cache()
+    if ghost:
+        signac.Project(root).open_job(id=ghost).remove()
     dirs = dict(enumerate(ids))
     for dmg in desc["damage"]:
-        apply_damage(root, ids, jobs, dmg, dirs)
+        apply_damage(root, ids, jobs, dmg, dirs, ghost)
     pre, cachefile = snapshot(root)
     listing = [d for d in os.listdir(ws) if _HEX.match(d)]
     check = _ck(lambda: signac.Project(root).check())
@@ -328,7 +377,8 @@ def run_project(root, desc):
     check_after = _ck(lambda: signac.Project(root).check())
     listing_after = sorted(d for d in os.listdir(ws) if _HEX.match(d))
     opens_after = [[i, _res(lambda i=i: typed(to_plain(q.open_job(id=i).statepoint())))] for i in listing_after]
-    return {"ids": ids, "pre": pre, "cache": cachefile, "listing": listing, "check": check, "open": opens,
+    return {"ids": ids, "truth": [[ids[k], dirs[k]] for k in range(len(ids))],
+            "pre": pre, "cache": cachefile, "listing": listing, "check": check, "open": opens,
             "repair": repair, "post": post, "check_after": check_after, "open_after": opens_after}
 
 
@@ -353,6 +403,15 @@ class Emit:
             return "WS"
         return coq_str(n)
 
+    def bytes(self, data):
+        for nm, d in DEEP.items():
+            if data == d:
+                self.prelude["b_" + nm] = ("Definition b_%s : list N := %s." % (
+                    nm, "repeat 91%N 2000 ++ repeat 93%N 2000" if nm == "deeplist" else
+                    "concat (repeat [123%N; 34%N; 97%N; 34%N; 58%N] 2000) ++ [49%N] ++ repeat 125%N 2000"))
+                return "b_" + nm
+        return coq_str(data)
+
     def path(self, comps):
         return coq_list([self.name(c) for c in comps], "str")
 
@@ -368,7 +427,7 @@ class Emit:
             if kind == "dir":
                 items.append(f"({self.path(comps)}, Dir)")
             else:
-                items.append(f"({self.path(comps)}, File (mkContent {coq_str(data)} None))")
+                items.append(f"({self.path(comps)}, File (mkContent {self.bytes(data)} None))")
         return coq_list(items, "(path * node)")
 
     def ck(self, r):
@@ -392,9 +451,10 @@ def run_case(desc):
         except Exception as e:  # noqa: BLE001
             # the implementation could not even build / observe the project (e.g. init() no longer creates job
             # directories): report it as an observation that nothing can match, not as a harness crash
-            o = {"ids": [], "pre": [], "cache": None, "listing": [], "check": ["exn", "EOther"], "open": [],
+            o = {"ids": [], "truth": [], "pre": [], "cache": None, "listing": [], "check": ["exn", "EOther"], "open": [],
                  "repair": ["exn", "EOther"], "post": [], "check_after": ["exn", "EOther"], "open_after": [],
                  "harness_exception": repr(e)[:300]}
+    E = Emit()
     texts = sorted({data for comps, kind, data in o["pre"] + o["post"] if kind == "file" and comps[-1] == SPF})
     table, values = [], [SHAPES[s] for s in desc["jobs"]]
     disagree = False
@@ -408,18 +468,19 @@ def run_case(desc):
         if (s[0] == "val") != (v[0] == "val") or (s[0] == "val" and s[1] != v[1]):
             disagree = True
         cs = f"(Some {coq_json(s[1])})" if s[0] == "val" else "None"
-        cv = f"(DVal {coq_json(v[1])})" if v[0] == "val" else ("DJsonErr" if v[0] == "jsonerr" else "DOtherErr")
-        table.append(f"({coq_str(b)}, ({cs}, {cv}))")
+        cv = (f"(DVal {coq_json(v[1])})" if v[0] == "val" else
+              {"jsonerr": "DJsonErr", "recerr": "DRecErr", "othererr": "DOtherErr"}[v[0]])
+        table.append(f"({E.bytes(b)}, ({cs}, {cv}))")
     if o["cache"]:
         values += list(o["cache"].values())
     for _, r in o["open"] + o["open_after"]:
         if r[0] == "ok":
             values.append(untyped(r[1]))
-    E = Emit()
-    coq = ("{| c9_ftab := %s; c9_dec := %s; c9_fs := %s; c9_listing := %s; c9_check := %s; c9_open := %s; "
+    coq = ("{| c9_ftab := %s; c9_dec := %s; c9_fs := %s; c9_listing := %s; c9_truth := %s; c9_check := %s; c9_open := %s; "
            "c9_repair := %s; c9_after := %s; c9_check_after := %s; c9_open_after := %s |}" % (
                coq_ftab(values), coq_list(table, "(list N * (option json * dec))"), E.tree(o["pre"], o["cache"]),
-               E.ids(o["listing"]), E.ck(o["check"]), E.opens(o["open"]), E.ck(o["repair"]),
+               E.ids(o["listing"]), coq_list([f"({E.name(j)}, {E.name(d)})" for j, d in o["truth"]], "(str * str)"),
+               E.ck(o["check"]), E.opens(o["open"]), E.ck(o["repair"]),
                E.tree(o["post"], o["cache"]), E.ck(o["check_after"]), E.opens(o["open_after"])))
     damaged = o["check"][0] != "ok"
     kinds = ["cache:" + desc["cache"].split(":")[0], "jobs:%d" % len(desc["jobs"]), "damaged:%d" % len(desc["damage"])]
